@@ -9,6 +9,7 @@ import (
 	"context"
 	"encoding/hex"
 	"encoding/json"
+	"fmt"
 	"os"
 	"runtime"
 	"time"
@@ -35,26 +36,57 @@ type pRec struct {
 	Alloc    uint64 `json:"alloc"`
 }
 
-const settleDeadline = 2 * time.Second
+const settleDeadline = 10 * time.Second // 2 s, plus four times more on the same observation before a hang is reported
 
 type p2pPair struct {
 	a, b *p2p.VerifC18Node
 }
 
-func newPair() *p2pPair {
+// harnessExit: an error of the driver's own setup (listen, connect, first ping of a fresh pair) — never a property
+// violation: a "harness" record and a distinct exit code, which the orchestration maps to an obligation failure after one retry.
+const harnessExit = 3
+
+var harnessFail func(why string)
+
+func tryPair() (*p2pPair, error) {
 	hs := []p2p.VerifC18Handler{{Name: "ping", Reply: []byte("pong"), Limit: 1 << 30}, {Name: "echo", Handler: func(w p2p.ResponseWriter, r *p2p.Request) { w.Write(r.Data) }, Limit: 1 << 30}}
 	a, err := p2p.VerifC18NewNode("/ip4/127.0.0.1/tcp/0", 30*time.Millisecond, 10*time.Millisecond, 0, nil, hs)
 	if err != nil {
-		panic(err)
+		return nil, err
 	}
 	b, err := p2p.VerifC18NewNode("/ip4/127.0.0.1/tcp/0", 30*time.Millisecond, 10*time.Millisecond, 0, nil, hs)
 	if err != nil {
-		panic(err)
+		a.Close()
+		return nil, err
 	}
 	if err := a.Connect(context.Background(), b); err != nil {
-		panic(err)
+		a.Close()
+		b.Close()
+		return nil, err
 	}
-	return &p2pPair{a: a, b: b}
+	p := &p2pPair{a: a, b: b}
+	for try := 0; try < 10; try++ { // a fresh pair must answer before it is used (loaded machine: be patient)
+		if p.ping() {
+			return p, nil
+		}
+		time.Sleep(200 * time.Millisecond)
+	}
+	p.close()
+	return nil, fmt.Errorf("fresh loopback pair does not answer ping")
+}
+
+func newPair() *p2pPair {
+	var last error
+	for try := 0; try < 5; try++ {
+		p, err := tryPair()
+		if err == nil {
+			return p
+		}
+		last = err
+		time.Sleep(300 * time.Millisecond)
+	}
+	harnessFail("cannot set up a loopback pair: " + last.Error())
+	return nil
 }
 
 func (p *p2pPair) close() { p.a.Close(); p.b.Close() }
@@ -78,6 +110,11 @@ func runP2P(outPath string, scale int, inPath string) {
 			panic(err)
 		}
 	}
+	harnessFail = func(why string) {
+		emit(pRec{K: "p", I: -2, Phase: "harness", Gen: why})
+		f.Close()
+		os.Exit(harnessExit)
+	}
 	rng := hx.NewRng(hx.SeedFromEnv())
 	pair := newPair()
 	defer func() {
@@ -85,9 +122,6 @@ func runP2P(outPath string, scale int, inPath string) {
 			pair.close()
 		}
 	}()
-	if !pair.ping() {
-		panic("harness: loopback pair does not answer")
-	}
 	i := 0
 	dead := 0
 	charged := 0 // goroutines inside the stream handlers already attributed to a case
@@ -114,6 +148,24 @@ func runP2P(outPath string, scale int, inPath string) {
 		// a full request / response round trip with the receiver (or its refusal: a malformed message makes it ban the sender's
 		// IP address): by then the handler of the message under test has been started
 		banned := !pair.ping()
+		if banned {
+			// a refusal must be explained by the receiver's gater (it penalised the sender's address for the malformed message);
+			// otherwise the receiver is not answering: patience first (load), then the case is reported as unresponsive
+			_, _, scored := pair.b.Score("127.0.0.1")
+			if !scored && len(pair.b.Banned()) == 0 {
+				for try := 0; try < 10 && banned; try++ {
+					time.Sleep(300 * time.Millisecond)
+					banned = !pair.ping()
+					_, _, scored = pair.b.Score("127.0.0.1")
+					if scored || len(pair.b.Banned()) > 0 {
+						break
+					}
+				}
+				if banned && !scored && len(pair.b.Banned()) == 0 {
+					rec.Send += "unresponsive"
+				}
+			}
+		}
 		// the receiver's stream goroutine must be gone within the deadline: goroutines still inside onRequest / onResponse (or
 		// anything they call) are counted in a dump of all goroutine stacks; those not yet charged to a case are charged here
 		t0 := time.Now()
